@@ -31,6 +31,36 @@ def _is_pop(event, path=None):
         isinstance(event.node, ast.Call) and event.node.func.attr in ('popleft', 'pop')
 
 
+def check_buffer_fifo(check, an: Analysis, rule: str):
+    """the Queue's buffer only sees append / popleft and is created empty, once"""
+    n_ops = 0
+    for fn, node, kind, detail in rules.attribute_method_calls(an, '_buffer', QUEUE):
+        where = '%s:%d' % (fn.module.relpath, node.lineno)
+        if kind == 'call':
+            n_ops += 1
+            if detail in ('append', 'popleft'):
+                check.instance(rule, '%s:_buffer.%s' % (short(fn.qn), detail), True, where,
+                               'FIFO operation', nontrivial=False)
+            elif detail in ('pop', 'appendleft', 'insert', 'reverse', 'rotate', 'sort',
+                            'extendleft', 'remove', 'clear'):
+                check.instance(rule, '%s:_buffer.%s' % (short(fn.qn), detail), False, where,
+                               'operation %s breaks the FIFO discipline of the buffer'
+                               % ast.unparse(node)[:50])
+            else:
+                raise AnalysisError('unclassified operation on Queue._buffer: %s at %s' % (
+                    ast.unparse(node)[:50], where))
+        elif kind == 'subscript':
+            check.instance(rule, '%s:_buffer[]' % short(fn.qn), False, where,
+                           'indexed access to the buffer')
+    for fn, stmt, target, recvs in rules.attribute_stores(an, '_buffer', QUEUE):
+        ok = fn.name == '__init__' and isinstance(stmt.value, ast.Call) and \
+            ast.unparse(stmt.value.func) in ('deque', 'collections.deque') and \
+            not stmt.value.args
+        check.instance(rule, '%s:_buffer=' % short(fn.qn), ok,
+                       '%s:%d' % (fn.module.relpath, stmt.lineno),
+                       'the buffer is created once, empty, as a deque')
+
+
 def run(check, an: Analysis):
     check.rule('W', 'exactly-once: no suspension between `_buffer.popleft()` and the return '
                     'of that very value')
@@ -133,32 +163,7 @@ def run(check, an: Analysis):
                                'append and __awake_next__ happen in one atomic block',
                                path=rules.path_lines(path, index))
     # ---- F ------------------------------------------------------------------
-    n_ops = 0
-    for fn, node, kind, detail in rules.attribute_method_calls(an, '_buffer', QUEUE):
-        where = '%s:%d' % (fn.module.relpath, node.lineno)
-        if kind == 'call':
-            n_ops += 1
-            if detail in ('append', 'popleft'):
-                check.instance('F', '%s:_buffer.%s' % (short(fn.qn), detail), True, where,
-                               'FIFO operation', nontrivial=False)
-            elif detail in ('pop', 'appendleft', 'insert', 'reverse', 'rotate', 'sort',
-                            'extendleft', 'remove', 'clear'):
-                check.instance('F', '%s:_buffer.%s' % (short(fn.qn), detail), False, where,
-                               'operation %s breaks the FIFO discipline of the buffer'
-                               % ast.unparse(node)[:50])
-            else:
-                raise AnalysisError('unclassified operation on Queue._buffer: %s at %s' % (
-                    ast.unparse(node)[:50], where))
-        elif kind == 'subscript':
-            check.instance('F', '%s:_buffer[]' % short(fn.qn), False, where,
-                           'indexed access to the buffer')
-    for fn, stmt, target, recvs in rules.attribute_stores(an, '_buffer', QUEUE):
-        ok = fn.name == '__init__' and isinstance(stmt.value, ast.Call) and \
-            ast.unparse(stmt.value.func) in ('deque', 'collections.deque') and \
-            not stmt.value.args
-        check.instance('F', '%s:_buffer=' % short(fn.qn), ok,
-                       '%s:%d' % (fn.module.relpath, stmt.lineno),
-                       'the buffer is created once, empty, as a deque')
+    check_buffer_fifo(check, an, 'F')
     check.floor('F', 4)
     # receive inside the mutex
     for path in recv_paths:
